@@ -103,3 +103,11 @@ package tchannel
 //@   trusted
 //@   modifies all
 //@   property C18call
+
+// C06 "nh:1 (hk~1 hv~1){nh}": every decoded transport header is stored under the
+// NAME AS IT IS ON THE WIRE -- the bytes after the length byte at which this
+// iteration started reading (prev(...): the value at the head of the iteration).
+//@ func (ch transportHeaders) read(r *typed.ReadBuffer)
+//@   label header-stored-under-its-wire-name
+//@   loop 0 step old(r.err) == nil && r.err == nil ==> has(ch, TransportHeaderName(bytestr(prev(r.remaining)[1:1+u8at(prev(r.remaining), 0)])))
+//@   property C06
